@@ -497,7 +497,14 @@ pub fn run(cfg: &Cfg, rep: &mut Report) -> PropMeta {
             single_word(cfg, "single", i, rep, &m, a, b, c);
             rep.eval(Some(&format!("sw-{}-{}-{}", refm::bit_len(q), refm::bit_len(a), refm::bit_len(b))));
         }
-        if i < 3 { rep.sample(json!({"group": "single", "modulus": q, "const_ratio": m.const_ratio().to_vec()})); }
+        if i < 3 {
+            let (a, b) = (boundary_operand(rng, q), boundary_operand(rng, q));
+            let op = hu::MultiplyU64ModOperand::new(b % q, &m);
+            rep.sample(json!({"group": "single", "modulus": q, "const_ratio": m.const_ratio().to_vec(), "a": a, "b": b,
+                "observed": {"barrett_reduce_u64(a)": hu::barrett_reduce_u64(a, &m), "multiply_u64_mod(a,b)": hu::multiply_u64_mod(a, b, &m), "operand_quotient(b mod q)": op.quotient,
+                             "multiply_u64operand_mod_lazy(a, b mod q)": hu::multiply_u64operand_mod_lazy(a, &op, &m), "exponentiate(a mod q, 5)": hu::exponentiate_u64_mod(a % q, 5, &m)},
+                "expected": {"a mod q": a % q, "a*b mod q": refm::mulmod(a, b, q), "floor(b*2^64/q)": ((((b % q) as u128) << 64) / q as u128) as u64}}));
+        }
     });
     // (3) multi-word helpers
     let n_mw = cfg.n(700_000, 12_000_000) as u64;
@@ -506,7 +513,13 @@ pub fn run(cfg: &Cfg, rep: &mut Report) -> PropMeta {
         multi_word(cfg, "multi", i, rep, rng);
         rep.eval(Some(&format!("mw-{}", i % 4096)));
         let _ = before;
-        if i < 2 { rep.sample(json!({"group": "multi", "case": i, "note": "one case = every multi-word helper on fresh operands of 1..8 words"})); }
+        if i < 2 {
+            let a = words(rng, 3); let b = words(rng, 3);
+            let mut sum = vec![0u64; 3]; let c = hu::add_uint(&a, &b, &mut sum);
+            let mut prod = vec![0u64; 6]; hu::multiply_uint(&a, &b, &mut prod);
+            rep.sample(json!({"group": "multi", "case": i, "note": "one case = every multi-word helper on fresh operands of 1..8 words; shown: one add and one multiply",
+                "a": a, "b": b, "observed_add_uint": {"sum": sum, "carry": c}, "observed_multiply_uint": prod, "expected_product_hex": bu(&a).mul(&bu(&b)).to_hex()}));
+        }
     });
     PropMeta {
         id: "C08", level: "exploration",
